@@ -74,11 +74,15 @@ def run_episode(args):
         var = dict(rng.choice(variants))
     res["variant_id"] = repr(sorted((k, repr(v)) for k, v in var.items()))
     scfg, mcfg = base_cfg(binary, **var)
-    srv = sut.Server(binary, scfg, hooks=hooks)
+    use_tls = bool(profile.get("tls"))
+    if use_tls:
+        import os
+        scfg["tls"] = (os.path.join(sut.REPO, "test_data", "cert.crt"), os.path.join(sut.REPO, "test_data", "cert_key.crt"))
+    srv = sut.Server(binary, scfg, hooks=hooks, tls=use_tls)
     w = None
     try:
         srv.start()
-        w = W.World(srv, mcfg)
+        w = W.World(srv, mcfg, tls=use_tls)
         w.start(password=var.get("password"))
         g = gen.Gen(rng.randrange(1 << 30), w, weights=profile.get("weights"),
                     max_clients=profile.get("max_clients", 5),
